@@ -1008,6 +1008,9 @@ func (e *SEnv) pureApp(f *ssa.Function, recv *Val, args []Expr) Val {
 		e.fail("function %s is used in a contract but is not declared pure", f.String())
 	}
 	key := f.String()
+	if k, ok := e.c.V.FuncKey[f]; ok {
+		key = k // module functions: the same symbol as at their call sites
+	}
 	return e.pureSym(key, con, f.Signature, recv, args, f)
 }
 
